@@ -298,8 +298,11 @@ Section PROGS.
               end)
         end)) (fun e => k (inr e)).
 
-  (* shutil.copy2: open source, open destination, copy, close, copystat (utime, chmod) *)
+  (* shutil.copy2: three stat calls of the destination whose errors are swallowed (os.path.isdir(dst);
+     _samefile -> os.stat(dst); the special-file test of copyfile), then open source, open destination, copy,
+     close, copystat (utime, chmod).  The source is a DirEntry: its stat is cached, no system call. *)
   Definition copy_file {A} (s d : path) (k : fres unit -> prog A) : prog A :=
+    Do (CStat d) (fun _ => Do (CStat d) (fun _ => Do (CStat d) (fun _ =>
     Do (CRead s) (fun r =>
       match r with
       | FOk (RData c) =>
@@ -326,11 +329,14 @@ Section PROGS.
             end)
       | FOk _ => k (FErr EINVAL)
       | FErr e => k (FErr e)
-      end).
+      end)))).
+
+  (* [top] of a nested copytree call *)
+  Definition nested : bool := false.
 
   (* shutil.copytree(s, d): errors of single entries are collected ([errs]) and raised at the end;
      a failing scandir / makedirs raises at once.  [k] receives (FOk errs) or the immediate error. *)
-  Fixpoint copytree_p {A} (fuel : nat) (s d : path) (k : fres bool -> prog A) : prog A :=
+  Fixpoint copytree_p {A} (fuel : nat) (top : bool) (s d : path) (k : fres bool -> prog A) : prog A :=
     Do (CListdir s) (fun rl =>
       match rl with
       | FOk (RNames names) =>
@@ -341,19 +347,22 @@ Section PROGS.
                 (fix entries (ns : list str) (errs : bool) {struct ns} : prog A :=
                    match ns with
                    | [] =>
-                       (* copystat(src, dst) of the directory itself *)
-                       Do (CMeta d) (fun m1 =>
-                         match m1 with
-                         | FErr _ => k (FOk true)
-                         | FOk _ => Do (CMeta d) (fun m2 => match m2 with FErr _ => k (FOk true) | FOk _ => k (FOk errs) end)
-                         end)
+                       (* copystat(src, dst) of the directory itself; the top-level source is a path (os.stat:
+                          a system call whose error is collected), nested sources are DirEntry objects *)
+                       let cs : prog A :=
+                         Do (CMeta d) (fun m1 =>
+                           match m1 with
+                           | FErr _ => k (FOk true)
+                           | FOk _ => Do (CMeta d) (fun m2 => match m2 with FErr _ => k (FOk true) | FOk _ => k (FOk errs) end)
+                           end) in
+                       if top then Do (CStat s) (fun rs => match rs with FErr _ => k (FOk true) | FOk _ => cs end) else cs
                    | n :: ns' =>
                        Do (CStat (s ++ [n])) (fun rk =>
                          if is_dir_r rk then
                            match fuel with
                            | O => entries ns' true
                            | S fuel' =>
-                               copytree_p fuel' (s ++ [n]) (d ++ [n]) (fun rr =>
+                               copytree_p fuel' nested (s ++ [n]) (d ++ [n]) (fun rr =>
                                  match rr with
                                  | FOk e1 => entries ns' (errs || e1)
                                  | FErr _ => entries ns' true
@@ -400,7 +409,7 @@ Section PROGS.
       Do (CStat (dst_ws ++ [did])) (fun rs =>
         let cleanup (e : perr) : prog A :=
           if exists_r rs then k (inr e) else rmtree_ign 6 (dst_ws ++ [did]) (k (inr e)) in
-        copytree_p 6 (ws ++ [i]) (dst_ws ++ [did]) (fun r =>
+        copytree_p 6 true (ws ++ [i]) (dst_ws ++ [did]) (fun r =>
           match r with
           | FOk false => k (inl tt)
           | FOk true => cleanup (POs EIO)                  (* shutil.Error: an OSError without errno *)
@@ -430,9 +439,13 @@ Section PROGS.
       | FErr e => k (FErr e)
       end).
 
+  (* shutil.rmtree(p) as called: os.lstat(p) first (its error is raised), then the walk *)
+  Definition rmtree_top {A} (p : path) (k : fres unit -> prog A) : prog A :=
+    Do (CStat p) (fun rs => match rs with FErr e => k (FErr e) | FOk _ => rmtree_p 6 p k end).
+
   (* Job.remove(): ENOENT is "nothing to remove" *)
   Definition remove_job {A} (ws : path) (i : str) (k : unit + perr -> prog A) : prog A :=
-    rmtree_p 6 (ws ++ [i]) (fun r =>
+    rmtree_top (ws ++ [i]) (fun r =>
       match r with
       | FOk _ | FErr ENOENT => k (inl tt)
       | FErr e => k (inr (POs e))
@@ -473,12 +486,16 @@ Section PROGS.
              | n :: ns' =>
                  if str_eqb n SPF || str_eqb n DOCF then entries ns'
                  else
+                   (* os.path.isfile / os.path.isdir: a stat error reads as False; an entry that is "neither"
+                      is skipped without a word (known finding 5) *)
                    Do (CStat (dir ++ [n])) (fun rk =>
                      if is_file_r rk then
                        Do (CUnlink (dir ++ [n])) (fun r => match r with FOk _ => entries ns' | FErr e => fin (inr (POs e)) end)
-                     else if is_dir_r rk then
-                       rmtree_p 6 (dir ++ [n]) (fun r => match r with FOk _ => entries ns' | FErr e => fin (inr (POs e)) end)
-                     else entries ns')
+                     else
+                       Do (CStat (dir ++ [n])) (fun rk2 =>
+                         if is_dir_r rk2 then
+                           rmtree_top (dir ++ [n]) (fun r => match r with FOk _ => entries ns' | FErr e => fin (inr (POs e)) end)
+                         else entries ns'))
              end) names
       | FOk _ => fin (inr (PExn EOther))
       | FErr e => fin (inr (POs e))
